@@ -143,12 +143,18 @@ pub fn blob(max: usize) -> BoxedStrategy<Vec<u8>> {
 
 /// Numeric OID text (2..6 arcs).
 pub fn oid() -> BoxedStrategy<String> {
-    (0u8..3, vec(prop_oneof![0u32..40, 0u32..100000], 1..6))
+    // arcs are unbounded non-negative integers (UUID-based OIDs under 2.25 have 39-digit arcs)
+    let arc = prop_oneof![
+        6 => (0u32..40).prop_map(|n| n.to_string()),
+        4 => (0u32..100000).prop_map(|n| n.to_string()),
+        1 => proptest::sample::select(&["4294967295", "4294967296", "18446744073709551615", "18446744073709551616", "329800735698586629295641978511506172918", "2147483648"][..]).prop_map(String::from),
+    ];
+    (0u8..3, vec(arc, 1..6))
         .prop_map(|(a, rest)| {
             let mut s = a.to_string();
             for r in rest {
                 s.push('.');
-                s.push_str(&r.to_string());
+                s.push_str(&r);
             }
             s
         })
